@@ -179,6 +179,8 @@ def shapes_for(tier, t):
         sh += [("partial", 3, 0), ("full-burst", full, 2), ("nocheck", 2, 1), ("burst-nocheck", 5, 3)]
     # synchronous burst and direct API: the harness skips what an algorithm does not offer
     sh += [("sync", 3, 4), ("direct", 1, 5)]
+    if t["cipher"] in (5, 19) and len(t["iv"]) == 12:
+        sh += [("ctx-direct", 1, 7)]          # streaming direct API, the context is scanned after FINALIZE
     if tier != "quick":
         sh += [("sync-nocheck", 3, 6)]
     return sh
@@ -285,7 +287,8 @@ def build_schedules(tier, seed):
             continue
         seen.add(key)
         for shape, n, ep in ([("single", 1, 0), ("full", lanes_for(t2), 0)] if tier == "quick" else
-                             [("single", 1, 0), ("full", lanes_for(t2), 0), ("partial", 3, 2), ("direct", 1, 5), ("sync", 3, 4)]):
+                             [("single", 1, 0), ("full", lanes_for(t2), 0), ("partial", 3, 2), ("direct", 1, 5), ("sync", 3, 4)]) + \
+                            ([("ctx-direct", 1, 7)] if t2["cipher"] in (5, 19) and len(t2["iv"]) == 12 else []):
             t = dict(t2)
             t["dir"], t["order"], t["inplace"] = 1, t1["order"], 1
             for k in ("doff", "hdst"):
@@ -471,6 +474,8 @@ def hit_signature(h, suite):
             where = "gpr"
     elif h["kind"] == "stack":
         where = "stack"
+    elif h["kind"] == "ctx":
+        where = re.sub(r"\+0x[0-9a-f]+$", "", where)
     else:
         where = re.sub(r"\+0x[0-9a-f]+$", "", where)
         where = re.sub(r"\[\d+\]", "[]", where)
@@ -716,9 +721,18 @@ def main(tier, seed):
     vacuous = claims is not None and sorted(k for k in claims if k not in used and k[1] not in ())
     res.coverage.update({
         "evaluations": len(rows), "distinct_nontrivial": nontrivial,
-        "rule": "one evaluation = one schedule (batch of 1..34 jobs of one suite through one entry point) on one variant with every "
-                "handler call trampolined; non-trivial = at least one job completed and at least one idle point was scanned "
-                "(registers + library stack + %d bytes of manager memory)" % 229288,
+        "rule": "one evaluation = one schedule (batch of 1..34 jobs of one suite with fresh random keys and text, through one "
+                "entry point) run on one variant with every handler call trampolined; evaluations are pairwise distinct "
+                "(schedule, variant) pairs; non-trivial = at least one job completed AND at least one idle point was scanned "
+                "(register snapshot + library stack + whole manager memory)",
+        "cipher_histogram": dict(collections.Counter(str(it["cipher"]) for s in scheds for it in s.items)),
+        "hash_histogram": dict(collections.Counter(str(it["hash"]) for s in scheds for it in s.items)),
+        "direction_histogram": dict(collections.Counter(str(it["dir"]) for s in scheds for it in s.items)),
+        "msg_length_histogram": dict(collections.Counter(
+            ("0-15", "16-63", "64-127", "128-255", "256-1023", "1024+")[sum(len(it["msg"]) >= b for b in (16, 64, 128, 256, 1024))]
+            for s in scheds for it in s.items)),
+        "jobs_per_schedule_histogram": dict(collections.Counter(str(len(s.items)) for s in scheds)),
+        "entry_point_histogram": dict(collections.Counter(str(s.ep) for s in scheds)),
         "schedules": len(scheds), "variants": VARIANTS, "schedule_runs_skipped_by_entry_point": skipped,
         "shapes_run": dict(ran), "shapes_all_jobs_completed": dict(completed),
         "suite_variant_pairs_completed": len(suites_done), "distinct_suites": len(set(s.suite for s in scheds)),
